@@ -94,6 +94,7 @@ CONSTANTS
   Burst,       \* cfg.ClientRateLimit (tokens per minute = bucket size); > 0
   StoreCap,    \* LimiterStore.maxSize
   EntryBurst,  \* cfg.RateLimit, the cache's per-entry limiter (0 = off)
+  BigQs,       \* SUBSET Questions: names whose answer does not fit a plain UDP client (it sends no OPT: 512 bytes)
   MaxOps,      \* entry-point calls (replays of handed-off jobs not counted)
   MaxPend,     \* handed-off jobs waiting for their replay
   MaxAge,      \* idle periods are counted up to this
@@ -105,7 +106,8 @@ CONSTANTS
   ChargeOnReplay,  \* the replay pass runs the limiter again
   EchoCached,      \* BADCOOKIE carries the remembered cookie instead of the fresh one
   ReuseEvicted,    \* a bucket created over an evicted one inherits its tokens and cookie
-  SharedKey        \* every address hashes to one key
+  SharedKey,       \* every address hashes to one key
+  ChargeBeforeFit  \* serveHitFromWire pays the entry token before the size / DNSSEC-fit gate (wireChainMismatch)
 
 Bkts == Clients \X Forms
 None == <<"-", "-">>                      \* no cookie
@@ -119,9 +121,12 @@ Key(c, f) == IF SharedKey THEN <<CHOOSE x \in Clients : TRUE, CHOOSE y \in Forms
              ELSE IF KeyByForm THEN <<c, f>> ELSE <<c, CHOOSE y \in Forms : TRUE>>
 
 NoReq == [id |-> 0, c |-> "-", f |-> "-", proto |-> "-", cc |-> "none", sv |-> "bare", q |-> "-",
-          entry |-> "-", ex |-> "none", odd |-> FALSE, ran |-> FALSE, paid |-> 0]
-NoRes == [kind |-> "none", rck |-> None, tl |-> 0, chg |-> 0, tot |-> 0, st |-> FALSE, ech |-> 0]
-\* chg: client tokens charged by this pass; tot: by this pass and the inline pass it replays; ech: entry tokens
+          entry |-> "-", ex |-> "none", odd |-> FALSE, ran |-> FALSE, paid |-> 0, epaid |-> 0,
+          ref |-> "skip", clean |-> FALSE]
+\* (ref, clean are ghosts: what the decoded entry would have answered when the call began; whether nothing else
+\*  happened between a handoff and its replay)
+NoRes == [kind |-> "none", rck |-> None, tl |-> 0, chg |-> 0, tot |-> 0, st |-> FALSE, ech |-> 0, etot |-> 0]
+\* chg: client tokens charged by this pass; tot: by this pass and the inline pass it replays; ech / etot: entry tokens likewise
 
 VARIABLES
   \* ---- LimiterStore ------------------------------------------------------------
@@ -174,6 +179,24 @@ NoOtherHolder(p) == \A o \in Procs \ {p} : ~Holding(o) \/ req[o].ex # "none" \/ 
 HasCookie(r) == r.cc \in CCs
 Wirable(r) == r.cc # "short" /\ ~r.odd       \* Request.ParseWire admits the packet
 B(r) == Key(r.c, r.f)
+\* the stored answer fits the client's buffer (entry_wire.go wireChainMismatch / the edns truncation): a big answer
+\* only over a stream; UDP clients of the big class send no OPT
+Fits(r) == r.q \notin BigQs \/ r.proto = "tcp"
+ReplyKind(r) == IF Fits(r) THEN "answer" ELSE "tc"
+\* ghost: the outcome of the decoded entry (ServeMsg: one pass, no wire ladder) for request r in the current state
+Oracle(r) ==
+  LET b == B(r)
+      t == IF b \in present THEN tok[b] ELSE Burst
+      have == IF b \in present THEN ck[b] ELSE None
+      match == have = None \/ (r.sv = "good" /\ have = <<r.c, r.cc>>)
+      branch == IF r.ex # "none" THEN "pass" ELSE IF ~HasCookie(r) THEN "plain" ELSE IF match THEN "free"
+                ELSE IF r.proto = "udp" THEN "bad" ELSE "plainstore"
+      lim == EntryBurst > 0 /\ r.ex # "internal" IN
+  IF branch \in {"plain", "bad", "plainstore"} /\ t < 1 THEN "drop"
+  ELSE IF branch = "bad" THEN "badcookie"
+  ELSE IF r.q \in cached /\ lim /\ etok[r.q] = 0 THEN "edrop"
+  ELSE ReplyKind(r)
+Dirty(S) == {[j EXCEPT !.clean = FALSE] : j \in S}
 RemoveSeq(s, x) == SelectSeq(s, LAMBDA y : y # x)
 Touch(b) == /\ lru' = Append(RemoveSeq(lru, b), b)
             /\ age' = [age EXCEPT ![b] = 0]
@@ -191,24 +214,26 @@ Start(p, c, f, proto, cc, sv, q, entry, ex, odd) ==
   /\ cc \notin CCs => sv = "bare"
   /\ ex # "none" => cc = "none" /\ ~odd /\ f = CHOOSE y \in Forms : TRUE
   /\ ex = "internal" => entry = "msg" /\ proto = "udp"
+  /\ q \in BigQs => cc = "none" /\ ~odd
   \* requests in flight together ask different questions (no dedup join below the limiter)
   /\ Atomic # "call" => \A o \in Procs \ {p} : pc[o] # "idle" => (req[o].q # q \/ q = "fresh")
-  /\ LET r == [id |-> nops + 1, c |-> c, f |-> f, proto |-> proto, cc |-> cc, sv |-> sv, q |-> q,
-               entry |-> entry, ex |-> ex, odd |-> odd, ran |-> FALSE, paid |-> 0] IN
+  /\ LET r0 == [id |-> nops + 1, c |-> c, f |-> f, proto |-> proto, cc |-> cc, sv |-> sv, q |-> q,
+                entry |-> entry, ex |-> ex, odd |-> odd, ran |-> FALSE, paid |-> 0, epaid |-> 0, ref |-> "skip", clean |-> TRUE]
+         r == [r0 EXCEPT !.ref = IF Atomic = "call" THEN Oracle(r0) ELSE "skip"] IN
      /\ nops' = nops + 1
      /\ req' = [req EXCEPT ![p] = r]
      /\ snap' = [snap EXCEPT ![p] = IF Atomic = "call" THEN Visible ELSE <<>>]
      /\ IF entry = "inline" /\ ~Wirable(r)
           THEN \* ServeRawInline: ParseWire refuses -> "a handoff outright", nothing ran
                /\ Cardinality(pend) < MaxPend
-               /\ pend' = pend \cup {r}
+               /\ pend' = Dirty(pend) \cup {r}
                /\ res' = [res EXCEPT ![p] = [NoRes EXCEPT !.kind = "handoff"]]
                /\ UNCHANGED pc
           ELSE /\ entry = "inline" =>
                     Cardinality(pend) + Cardinality({o \in Procs : pc[o] # "idle" /\ req[o].entry = "inline"}) < MaxPend
                /\ pc' = [pc EXCEPT ![p] = "gate"]
                /\ res' = [res EXCEPT ![p] = NoRes]
-               /\ UNCHANGED pend
+               /\ pend' = Dirty(pend)
   /\ actor' = AEnv
   /\ UNCHANGED <<store, cached, etok, ld, br, gb, own>>
 
@@ -218,9 +243,9 @@ StartReplay(p, id) ==
   /\ \E j \in pend :
        /\ j.id = id
        /\ Atomic # "call" => \A o \in Procs \ {p} : pc[o] # "idle" => (req[o].q # j.q \/ j.q = "fresh")
-       /\ pend' = pend \ {j}
+       /\ pend' = Dirty(pend \ {j})
        /\ req' = [req EXCEPT ![p] = [j EXCEPT !.entry = "replay"]]
-       /\ res' = [res EXCEPT ![p] = [NoRes EXCEPT !.tot = j.paid]]
+       /\ res' = [res EXCEPT ![p] = [NoRes EXCEPT !.tot = j.paid, !.etot = j.epaid]]
   /\ pc' = [pc EXCEPT ![p] = "gate"]
   /\ snap' = [snap EXCEPT ![p] = IF Atomic = "call" THEN Visible ELSE <<>>]
   /\ actor' = AEnv
@@ -308,6 +333,9 @@ BadStore(p) ==
 Down(p) ==
   LET r == req[p]
       hit == r.q \in cached
+      lim == EntryBurst > 0 /\ r.ex # "internal"
+      \* the wire ladder (wire-born first pass only; the replay pass skips it) turns the hit away on size
+      declines == r.entry \in {"wire", "inline"} /\ Wirable(r) /\ ~Fits(r)
       rck == IF HasCookie(r) THEN <<r.c, r.cc>> ELSE None
       after(k) == IF br[p] \in {"free", "plainstore"}
                     THEN /\ pc' = [pc EXCEPT ![p] = "post"]
@@ -315,16 +343,29 @@ Down(p) ==
                          /\ UNCHANGED snap
                     ELSE Finish(p, k) IN
   /\ pc[p] = "down" /\ CanStep(p)
-  /\ CASE hit /\ EntryBurst > 0 /\ r.ex # "internal" /\ etok[r.q] >= 1 ->
-            \* chargeEntryLimiter / handleCacheHit: one token of the entry's limiter, then the reply
+  /\ CASE hit /\ declines /\ r.entry = "inline" /\ ~(ChargeBeforeFit /\ lim) ->
+            \* serveHitFromWire: the stored body does not fit this client -> decline BEFORE the entry limiter is
+            \* charged; the reader must not take the Msg body: MarkHandoff, unwritten
+            /\ pend' = pend \cup {[r EXCEPT !.ran = TRUE, !.paid = res[p].chg]}
+            /\ after([res[p] EXCEPT !.kind = "handoff"])
+            /\ UNCHANGED <<cached, etok>>
+       [] hit /\ declines /\ r.entry = "inline" /\ ChargeBeforeFit /\ lim /\ etok[r.q] >= 1 ->
+            \* mutant: the token is paid, then the fit gate declines; the replay has no memo of it
             /\ etok' = [etok EXCEPT ![r.q] = @ - 1]
-            /\ after([res[p] EXCEPT !.kind = "answer", !.rck = rck, !.ech = 1])
+            /\ pend' = pend \cup {[r EXCEPT !.ran = TRUE, !.paid = res[p].chg, !.epaid = 1]}
+            /\ after([res[p] EXCEPT !.kind = "handoff", !.ech = 1, !.etot = @ + 1])
+            /\ UNCHANGED cached
+       [] hit /\ ~(declines /\ r.entry = "inline") /\ lim /\ etok[r.q] >= 1 ->
+            \* chargeEntryLimiter (wire ladder) or handleCacheHit (Msg body; the `spent` memo makes a ladder that
+            \* declined after paying and the Msg body of the SAME call one charge): one token, then the reply
+            /\ etok' = [etok EXCEPT ![r.q] = @ - 1]
+            /\ after([res[p] EXCEPT !.kind = ReplyKind(r), !.rck = rck, !.ech = 1, !.etot = @ + 1])
             /\ UNCHANGED <<cached, pend>>
-       [] hit /\ EntryBurst > 0 /\ r.ex # "internal" /\ etok[r.q] = 0 ->
+       [] hit /\ ~(declines /\ r.entry = "inline" /\ ~ChargeBeforeFit) /\ lim /\ etok[r.q] = 0 ->
             /\ after([res[p] EXCEPT !.kind = "edrop"])
             /\ UNCHANGED <<cached, etok, pend>>
-       [] hit /\ (EntryBurst = 0 \/ r.ex = "internal") ->
-            /\ after([res[p] EXCEPT !.kind = "answer", !.rck = rck])
+       [] hit /\ ~(declines /\ r.entry = "inline") /\ ~lim ->
+            /\ after([res[p] EXCEPT !.kind = ReplyKind(r), !.rck = rck])
             /\ UNCHANGED <<cached, etok, pend>>
        [] ~hit /\ r.entry = "inline" ->
             \* Cache.ServeDNS: InlineOnly -> MarkHandoff, unwritten
@@ -334,7 +375,7 @@ Down(p) ==
        [] ~hit /\ r.entry # "inline" ->
             \* the upstream (the scripted tail) is asked, the answer is cached
             /\ cached' = IF r.q = "fresh" THEN cached ELSE cached \cup {r.q}
-            /\ after([res[p] EXCEPT !.kind = "answer", !.rck = rck, !.tl = 1])
+            /\ after([res[p] EXCEPT !.kind = ReplyKind(r), !.rck = rck, !.tl = 1])
             /\ UNCHANGED <<etok, pend>>
   /\ actor' = IF r.ex # "none" THEN AExempt ELSE ABelow
   /\ UNCHANGED <<store, req, ld, br, nops, gb, own>>
@@ -358,7 +399,8 @@ Tick(k) ==
   /\ etok' = [q \in Questions |-> EntryBurst]     \* the entry limiter refills per SECOND: full again
   /\ gb' = [c \in Clients |-> Min(Burst, gb[c] + k)]
   /\ actor' = ATick
-  /\ UNCHANGED <<present, ck, lru, cached, pend, procs, own, snap>>
+  /\ pend' = Dirty(pend)
+  /\ UNCHANGED <<present, ck, lru, cached, procs, own, snap>>
 
 Cleanup(K) ==
   /\ K \in CleanSet /\ \A p \in Procs : pc[p] = "idle"
@@ -369,7 +411,8 @@ Cleanup(K) ==
      /\ gb' = [c \in Clients |-> IF \E b \in gone : b[1] = c THEN Burst ELSE gb[c]]
      /\ own' = [b \in Bkts |-> IF b \in gone THEN {} ELSE own[b]]
   /\ actor' = AEnv
-  /\ UNCHANGED <<tok, ck, age, below, procs, snap>>
+  /\ pend' = Dirty(pend)
+  /\ UNCHANGED <<tok, ck, age, cached, etok, procs, snap>>
 
 Step(p) == Gate(p) \/ Get(p) \/ Load(p) \/ Allow(p) \/ BadStore(p) \/ Down(p) \/ Post(p)
 
@@ -398,14 +441,22 @@ TypeOK ==
   /\ Cardinality(pend) <= MaxPend
   /\ pc \in [Procs -> {"idle", "gate", "get", "load", "allow", "badstore", "down", "post"}]
   /\ br \in [Procs -> {"none", "pass", "plain", "free", "bad", "plainstore"}]
-  /\ \A p \in Procs : res[p].kind \in {"none", "answer", "badcookie", "drop", "edrop", "handoff"}
+  /\ \A p \in Procs : res[p].kind \in {"none", "answer", "tc", "badcookie", "drop", "edrop", "handoff"}
+
+Done(p) == pc[p] = "idle" /\ res[p].kind # "none"
 
 (* one question costs at most one client token and one entry token, whichever entry serves it,
    the inline pass and its replay taken together *)
-OneChargePerQuestion == \A p \in Procs : res[p].tot <= 1 /\ res[p].chg <= 1 /\ res[p].ech <= 1
+OneChargePerQuestion == \A p \in Procs : res[p].tot <= 1 /\ res[p].chg <= 1 /\ res[p].ech <= 1 /\ res[p].etot <= 1
+
+(* wire / msg / inline + replay give the same reply class for the same history: what a completed call (a replay:
+   when nothing else happened since its inline pass) gave its client is what the decoded entry would have given
+   in the state the call began in *)
+SameOutcomeAcrossEntries ==
+  \A p \in Procs : (Done(p) /\ Atomic = "call" /\ res[p].kind # "handoff" /\ req[p].ref # "skip"
+                    /\ (req[p].entry = "replay" => req[p].clean)) => res[p].kind = req[p].ref
 
 (* a request the limiter refused: no reply, no token, no cookie remembered, nothing below ran *)
-Done(p) == pc[p] = "idle" /\ res[p].kind # "none"
 DropIsSilent ==
   \A p \in Procs : (Done(p) /\ res[p].kind = "drop") =>
      res[p].chg = 0 /\ ~res[p].st /\ res[p].tl = 0 /\ res[p].rck = None /\ res[p].ech = 0
@@ -444,7 +495,7 @@ BadCookieSound ==
      /\ res[p].chg = 1 /\ res[p].tl = 0 /\ res[p].ech = 0
 (* a verified cookie is never charged *)
 VerifiedIsFree ==
-  \A p \in Procs : (Done(p) /\ br[p] = "free") => res[p].chg = 0 /\ res[p].kind \in {"answer", "edrop", "handoff"}
+  \A p \in Procs : (Done(p) /\ br[p] = "free") => res[p].chg = 0 /\ res[p].kind \in {"answer", "tc", "edrop", "handoff"}
 HandoffOnlyInline == \A p \in Procs : (Done(p) /\ res[p].kind = "handoff") => req[p].entry = "inline"
 TokensNeverRefillWithoutTime ==
   [][\A b \in present \cap present' : tok'[b] > tok[b] => actor' = ATick]_vars
